@@ -24,7 +24,7 @@ REQUIRED = {'orth-structure': 500, 'orth-orthonormal': 500, 'orth-tensor': 500,
     'orth-pivot-norm': 300, 'orth-ranks': 500, 'orth-noalias': 500,
     'orth-stab': 200, 'orth-reject': 100, 'step-orthonormal': 200,
     'step-tensor': 200, 'step-inplace': 100, 'step-not-inplace': 100,
-    'orth-nested': 20}
+    'orth-nested': 20, 'gauge-tensor': 300, 'gauge-orthonormal': 100}
 REQUIRED_EVENTS = {'norm-outside-double-range': 20}
 ASSUMPTIONS = ['tensor-preservation tolerance 50 d eps prod_k ||G_k||_F '
     '(norm-wise backward error of the QR/RQ chain)',
@@ -39,7 +39,7 @@ def gen_cases(seed, tier):
     rng = np.random.default_rng([seed, 104])
     q = tier == 'quick'
     fams = gen.FAMILIES + ['zero-core', 'huge', 'tiny', 'long', 'spread-huge',
-        'spread-tiny']
+        'spread-tiny', 'gauge', 'extreme-bond']
     out = []
     for j in range(600 if q else 15000):
         out.append({'seed': int(rng.integers(1 << 62)),
@@ -161,8 +161,13 @@ def judge_orth(ctx, Y, k, use_stab, res, rng, nested=False):
         pm = float(np.max(np.abs(Z[k])))
         if nrm >= 1e-90:
             okm = okm and pm >= 2.0 ** -10
+        # known finding (mechanism, see KNOWN_FINDINGS.txt): a core of the
+        # argument lies wholly at or below core_stab's threshold 1e-100, the
+        # running product is then handed on unscaled
+        below = any(0 < float(np.max(np.abs(G))) <= 1e-100 for G in Y)
         ctx.check('orth-stab', okm, f'entries not of moderate magnitude: '
             f'max |entry| = {mx:.3e}, pivot max = {pm:.3e}, p = {p}',
+            kf='stab-thr-no-rescale' if below else None,
             shape=n, log2_norm=float(np.log2(nrm)) if nrm > 0 else None)
     if d >= 3 or any(b < a for a, b in zip(rin, rout)):
         ctx.nontrivial([n, rin, k, bool(use_stab)])
@@ -277,6 +282,22 @@ def make_input(rng, fam):
         for G in Y:
             G *= 2.0 ** (sgn * int(rng.integers(90, 131)))
         return Y, {'family': fam, 'n': n, 'r': r}
+    if fam == 'extreme-bond':
+        # a rank-1 bond next to a core whose entries have subnormal squares
+        # (2^-515..2^-540) or overflowing squares (2^+515..2^+530), balanced
+        # by the neighbour: the tensor itself is of ordinary size
+        d = int(rng.integers(3, 6))
+        n = [int(rng.integers(2, 5)) for _ in range(d)]
+        r = gen.rand_ranks(rng, d, 4, 2)
+        i = int(rng.integers(1, d))
+        r[i] = 1
+        Y = gen.cores(rng, n, r, 'normal')
+        sh = int(rng.integers(515, 541)) * (-1 if rng.random() < 0.6 else 1)
+        if sh > 530:
+            sh = 530
+        Y[i] *= 2.0 ** sh
+        Y[i - 1 if rng.random() < 0.7 or i == d - 1 else i + 1] *= 2.0 ** -sh
+        return Y, {'family': fam, 'n': n, 'r': r}
     base = fam if fam in gen.FAMILIES else None
     Y, info = gen.make_tt(rng, base, dmax=5, nmax=4, rmax=5, max_entries=3000)
     d = len(Y)
@@ -304,8 +325,87 @@ def expect_reject(ctx, fn, what):
     ctx.viol('orth-reject', f'{what}: accepted an out-of-range pivot')
 
 
+def run_gauge(case, ctx):
+    """A bond whose gauge is badly unbalanced: Y[i-1] D and D^-1 Y[i] with a
+    positive diagonal D spanning up to 2^160.  The dense tensor and the
+    tensor of absolute values of the cores do not depend on D, so 'the same
+    tensor up to rounding' is judged relative to that gauge-invariant bound
+    (the product of the core norms, used elsewhere, grows with D).  Driven:
+    complete sweeps (every pivot, plain and stabilised) and the single steps
+    AT the unbalanced bond, which factorise column-scaled matrices (Householder
+    QR is column-wise backward stable); single steps at other bonds factorise
+    row-scaled matrices, which no QR handles, and are not part of the claim."""
+    import teneva
+    rng = np.random.default_rng(case['seed'])
+    d = int(rng.integers(3, 6))
+    n = [int(rng.integers(2, 5)) for _ in range(d)]
+    r = gen.rand_ranks(rng, d, 4, 2)
+    Y = gen.cores(rng, n, r, 'normal')
+    i = int(rng.integers(1, d))
+    D = 2.0 ** rng.integers(-80, 81, size=r[i]).astype(float)
+    if rng.random() < 0.5:
+        D = np.sort(D)[::-1].copy()
+    Y[i - 1] = Y[i - 1] * D[None, None, :]
+    Y[i] = Y[i] / D[:, None, None]
+    A = ref.dense_ld(Y)
+    nrm = np.sqrt(np.sum(A * A))
+    tol = 200 * d * EPS * np.sqrt(np.sum(ref.absbound(Y) ** 2))
+    _depth['n'] += 1             # the interposed monitors use the core-norm
+    try:                         # product and would be vacuous here
+        runs = []
+        for k in range(d):
+            for stab in (False, True):
+                res = teneva.orthogonalize(Y, k, stab)
+                Z, p = res if stab else (res, 0)
+                runs.append((f'orthogonalize(k={k}, use_stab={stab})', Z,
+                    int(p), list(range(k)), list(range(k + 1, d)), k))
+        runs.append((f'orthogonalize_left(i={i - 1})',
+            teneva.orthogonalize_left([G.copy() for G in Y], i - 1), 0,
+            [i - 1], [], None))
+        runs.append((f'orthogonalize_right(i={i})',
+            teneva.orthogonalize_right([G.copy() for G in Y], i), 0, [],
+            [i], None))
+    finally:
+        _depth['n'] -= 1
+    for what, Z, p, lefts, rights, k in runs:
+        why = ref.wellformed(Z, n)
+        if not ctx.check('gauge-tensor', why is None, f'{what}: malformed '
+                f'result: {why}'):
+            continue
+        bad = []
+        for j in lefts:
+            dev, t = gram_dev_left(Z[j])
+            if not dev <= t:
+                bad.append((j, 'left', dev))
+        for j in rights:
+            dev, t = gram_dev_right(Z[j])
+            if not dev <= t:
+                bad.append((j, 'right', dev))
+        ctx.check('gauge-orthonormal', not bad, f'{what} on a tensor with an '
+            f'unbalanced bond {i} (log2 D = {np.log2(D).tolist()}): cores not '
+            f'orthonormal: {bad[:3]}', shape=n, ranks=r)
+        B = ref.dense_ld(Z) * np.ldexp(LD(1), p)
+        diff = np.sqrt(np.sum((A - B) ** 2))
+        ctx.check('gauge-tensor', bool(diff <= tol), lambda: f'{what} on a '
+            f'tensor with an unbalanced bond {i} (log2 D = '
+            f'{np.log2(D).tolist()}): ||Z 2^p - Y||_F = {float(diff):.3e} > '
+            f'{float(tol):.3e} (||Y|| = {float(nrm):.3e})', shape=n, ranks=r)
+        if k is not None:
+            pn = LD(np.sqrt(np.sum(np.asarray(Z[k], dtype=LD) ** 2))) * \
+                np.ldexp(LD(1), p)
+            ctx.check('gauge-tensor', bool(abs(pn - nrm) <= tol), lambda:
+                f'{what}: pivot core norm {float(pn):.6e} != ||Y|| = '
+                f'{float(nrm):.6e} (unbalanced bond {i})')
+        rout = ref.ranks_of(Z)
+        ctx.check('gauge-tensor', all(b <= a for a, b in zip(r, rout)),
+            f'{what}: ranks {r} -> {rout}')
+    ctx.nontrivial(['gauge', n, r, i])
+
+
 def run_case(case, ctx):
     import teneva
+    if case['family'] == 'gauge':
+        return run_gauge(case, ctx)
     rng = np.random.default_rng(case['seed'])
     Y, info = make_input(rng, case['family'])
     d = len(Y)
